@@ -331,6 +331,9 @@ def unaryop(interp, op, v):
             r = SArr(n_term, a_term, "bool", dtype="bool")
             r.birth = interp.ctx.stamp
             r.not_of = v
+            if getattr(getattr(interp.cur_frame, "unit", None), "count_masks", False):
+                from . import rngmodel
+                rngmodel.note_complement(interp, SArr(v.n, v.a, "bool"), r)
             return r
     raise eng.Unsupported(f"unary {op} on {type(v).__name__}")
 
@@ -926,6 +929,7 @@ def where_idx(interp, mask):
                           z3.And(n == z3.If(m.n >= 0, m.n, Z(0)),
                                  z3.ForAll([kk], z3.Implies(z3.And(kk >= 0, kk < n), idx.sel(kk) == kk)))))
     idx.rank = rank
+    idx.of_mask = SArr(mask.n, mask.a, "bool") if mask.base is None else None
     if wkey is not None:
         wstore[wkey] = idx
     return idx
